@@ -181,7 +181,7 @@ def check(cx):
     # ---- C14.5 worker pool liveness --------------------------------------------------------------------------
     r5 = cx.rule("C14.5", "MPT: JobQueue::push notifies a waiter after queueing; the worker loop runs jobs under "
                  "catch_unwind (C16.1); SharedTaskRunner::{run,run_with_result} send the task's result on every path of the "
-                 "job closure and fail (do not hang) when the channel closes", floor=4)
+                 "job closure and fail (do not hang) when the channel closes; a woken worker re-tests the queue", floor=5)
     fp = cx.guard(r5, "JobQueue::push", p.find_fns, r"JobQueue::<T>::push$")
     if fp:
         f = fp[0]
@@ -189,6 +189,35 @@ def check(cx):
         pb = [c for c in f.calls() if c.callee.endswith("::push_back")]
         good = bool(nt) and bool(pb) and not f.success_returns_from(0, blocked=nt) and all(any(f.dominates(x.bb, n) for x in pb) for n in nt)
         cx.verdict(good, r5, "push-notifies", f.where(), "push_back then notify on every path", "a queued job does not wake a worker")
+    # a worker woken from the condition variable re-tests the queue under the lock (another worker may have taken the job):
+    # what pop_interruptible returns after a wait without going round its loop again is the constant None (shutdown), never the
+    # result of a pop - a `None` from a stolen wake-up ends the worker's loop for good and the pool shrinks
+    fpi = p.find_fns(r"JobQueue::<T>::pop_interruptible$")
+    if not fpi:
+        cx.bad(r5, "pop-retests-after-wake", "", "JobQueue::pop_interruptible not found")
+    else:
+        f = fpi[0]
+        from axvlib.core import natural_loops as _nl14
+        waits = [c for c in f.calls() if "Condvar::wait" in c.callee]
+        lps = [(h, body) for h, body in _nl14(f) if any(c.bb in body for c in waits)]
+        good, why = bool(waits) and bool(lps), "no condition-variable wait inside a loop"
+        if good:
+            h = max(lps, key=lambda x: len(x[1]))[0]
+            for w in waits:
+                if w.term["to"] is None:
+                    continue
+                after = f.reachable(w.term["to"], blocked={h})
+                for b_ in sorted(after):
+                    blk = f.blocks[b_]
+                    for st in blk["stmts"]:
+                        if st["dst"] == [0] and not (st["rv"].get("r") == "agg" and st["rv"].get("variant") == "None"):
+                            good, why = False, "a value other than None is returned straight after the wait"
+                    t = blk["term"]
+                    if t["t"] == "call" and t.get("dst") == [0]:
+                        good, why = False, "the result of %s is returned straight after the wait" % str((t["fn"] or {}).get("def", "a call")).rsplit("::", 1)[-1]
+        cx.verdict(good, r5, "pop-retests-after-wake", f.where(), "after a wait only the shutdown None leaves without re-testing the queue",
+                   "JobQueue::pop_interruptible: %s: a worker whose job was taken by another worker gets None, leaves its loop and never "
+                   "comes back (the pool silently shrinks to one worker)" % why)
     fw = cx.guard(r5, "worker-loop", p.fn, "multithreading::threadpool::Worker::new::{closure#0}")
     if fw:
         cu = [c for c in fw.calls() if c.callee == "std::panic::catch_unwind"]
